@@ -24,6 +24,9 @@ var VerifHook func(point string, path string)
 //	VERIF_SIGNAL_AT=<point>@<base>#<n>:<INT|TERM|QUIT>
 //	                                    send that signal to self there and wait until the
 //	                                    signal handler has cancelled the context
+//	VERIF_SIGNAL2_AT=<point>@<base>#<n>:<INT|TERM|QUIT>
+//	                                    a further signal, sent at a point reached after the first one (while the
+//	                                    process is cleaning up); nothing waits for it to be seen
 var (
 	verifOnce    sync.Once
 	verifMtx     sync.Mutex
@@ -35,6 +38,8 @@ var (
 	verifSig     syscall.Signal
 	verifSigSeen = make(chan struct{})
 	verifSigOnce sync.Once
+	verifSig2At  string
+	verifSig2    syscall.Signal
 )
 
 func verifBase(path string) string {
@@ -59,6 +64,15 @@ func verifInit() {
 		verifTraceFp, _ = os.OpenFile(p, os.O_CREATE|os.O_WRONLY|os.O_APPEND, 0600)
 	}
 	verifCrashAt = os.Getenv("VERIF_CRASH_AT")
+	if s := os.Getenv("VERIF_SIGNAL2_AT"); s != "" {
+		if i := strings.LastIndex(s, ":"); 0 < i {
+			verifSig2At = s[:i]
+			verifSig2 = map[string]syscall.Signal{"TERM": syscall.SIGTERM, "QUIT": syscall.SIGQUIT}[s[i+1:]]
+			if verifSig2 == 0 {
+				verifSig2 = syscall.SIGINT
+			}
+		}
+	}
 	if s := os.Getenv("VERIF_SIGNAL_AT"); s != "" {
 		if i := strings.LastIndex(s, ":"); 0 < i {
 			verifSigAt = s[:i]
@@ -88,7 +102,7 @@ func verifPoint(point string, path string) {
 	if point == "signal.seen" {
 		verifSigOnce.Do(func() { close(verifSigSeen) })
 	}
-	if verifTraceFp == nil && verifCrashAt == "" && verifSigAt == "" {
+	if verifTraceFp == nil && verifCrashAt == "" && verifSigAt == "" && verifSig2At == "" {
 		return
 	}
 
@@ -112,5 +126,9 @@ func verifPoint(point string, path string) {
 		case <-verifSigSeen:
 		case <-time.After(5 * time.Second):
 		}
+	}
+	if verifSig2At != "" && id == verifSig2At {
+		_ = syscall.Kill(os.Getpid(), verifSig2)
+		time.Sleep(20 * time.Millisecond)
 	}
 }
